@@ -175,8 +175,9 @@ func (code128Encoder) encodeWithHints(contentsStr string, hints map[gozxing.Enco
 					break
 				default:
 					// CODE_CODE_C
-					if position+1 == length {
-						// this is the last character, but the encoding is C, which always encodes two characers
+					if position+1 == length || contents[position+1] < '0' || contents[position+1] > '9' {
+						// this is the last character (or the last digit before FNC1), but the encoding is C,
+						// which always encodes two characers
 						return nil, gozxing.NewWriterException(
 							"IllegalArgumentException: Bad number of characters for digit only encoding.")
 					}
